@@ -64,9 +64,17 @@ def handleRegion (j : Json) : R Json := do
   let genes ← listOf locOfJson (← fld j "genes")
   let views := genes.map (geneView c)
   let impl ← fld j "impl"
-  let implAreas : Option (List Area) ← match fldD impl "areas" Json.null with
+  -- the implementation's areas as written (`to_minimal_json`), read the way a consumer reads them
+  let implAreas : Option (List Area) ← match fldD impl "areas_raw" Json.null with
     | .null => pure none
-    | aj => do pure (some (← listOf areaOfJson aj))
+    | aj => do
+      let raws ← listOf (listOf fun kv => do
+        let k ← asStr (← idx kv 0)
+        let v ← idx kv 1
+        match v with
+        | .str s => pure (k, JVal.str s)
+        | _ => pure (k, JVal.int (← asInt v))) aj
+      pure (raws.mapM readArea)
   let implOrfs : Option (List Orf) ← match fldD impl "orfs" Json.null with
     | .null => pure none
     | oj => do pure (some (← listOf orfOfJson oj))
@@ -75,8 +83,9 @@ def handleRegion (j : Json) : R Json := do
     | _, _ => none
   let ann := announced c
   let specAreas := match implAreas with
-    | none => jObj [("in_range", toJson false), ("rows_disjoint", toJson false), ("complete", toJson false)]
-    | some out => jObj [("in_range", toJson (areasInRange c out)),
+    | none => jObj [("readable", toJson false), ("in_range", toJson false), ("rows_disjoint", toJson false),
+                    ("complete", toJson false)]
+    | some out => jObj [("readable", toJson true), ("in_range", toJson (areasInRange c out)),
                         ("rows_disjoint", toJson (decide (RowsDisjoint out))),
                         ("complete", toJson (completeB c.L rSpec out))]
   let placed (orfs : List Orf) : Bool :=
@@ -94,6 +103,9 @@ def handleRegion (j : Json) : R Json := do
                          ("placed", toJson (placed orfs))]
   return jObj [
     ("model", jObj [("areas", optAreas (buildAreaRows c r)),
+                    ("area_keys", match buildAreaRows c r with
+                      | none => Json.null
+                      | some l => jArr (l.map fun a => jStrs (a.toMinimalJson.map (·.1)))),
                     ("orfs", jArr ((convertCds c views).map orfToJson)),
                     ("start", toJson ann.1), ("end", toJson ann.2)]),
     ("spec", jObj [("areas", specAreas), ("orfs", specOrfs),
